@@ -8,7 +8,10 @@
 //	       W=<errors>!<globals>!<second save>;                                  (whole file)
 //	       M=<hex of the bytes saved with MaxValueLen=N, `=` when N is 0>;
 //	       C=<r orig>^<r L>^<r W>|...      one triple per call, r = o=<hex>!v=<value>!e=<0|1>!p=<panic kind>
-//	       X=<4 flags>  save("c14") bytes = S, load("c14") globals = W's, AutoSave bytes = S, AutoLoad globals = L's
+//	       X=<8 flags>  save("c14") bytes = S, load("c14") globals = W's, AutoSave bytes = S, AutoLoad globals = L's; then the
+//	                    session goes on (every other user global deleted, the others set to 1) and is saved AGAIN to the same
+//	                    files: c14.gr bytes = SaveGlobals' own bytes, load("c14") globals = those of evaluating these bytes
+//	                    whole, .gr bytes = SaveGlobals' bytes, AutoLoad globals = those of evaluating these bytes line by line
 //
 // globals: `name=<value>` joined by `,`, sorted by name; a name with a leading `*` is one of the
 // identifiers pre-seeded by extensions.Init.  value: n t f i<dec> d<16 hex bits>~<hex Inspect text>
@@ -24,6 +27,9 @@ import (
 	"fmt"
 	"math"
 	"os"
+	"path/filepath"
+	"regexp"
+	"runtime/debug"
 	"sort"
 	"strconv"
 	"strings"
@@ -308,6 +314,8 @@ var slChild *lineChild
 
 func saveloadRun(input string) string {
 	initExtensions()
+	// as in the eval suite: the allocation guard compares requests with GOMEMLIMIT
+	memLimitOnce.Do(func() { debug.SetMemoryLimit(256 << 20) })
 	maxLen, defs, calls, ok := slParse(input)
 	if !ok {
 		return "BAD"
@@ -339,10 +347,10 @@ func saveloadRun(input string) string {
 	if slChild == nil {
 		slChild = startLineChild(newScratch("saveload"), nil, "child-saveload")
 	}
-	x := "cccc"
+	x := "cccccccc"
 	if ans, err := slChild.ask(input); err == nil {
 		p := strings.Split(ans, ";")
-		if len(p) == 4 {
+		if len(p) == 5 {
 			x = b2s(p[0] == hx(saved)) + b2s(p[1] == gW)
 			if numSet == 0 {
 				// repl.AutoSave skips the save when nothing was set: no file, nothing to load
@@ -350,6 +358,7 @@ func saveloadRun(input string) string {
 			} else {
 				x += b2s(p[2] == hx(saved)) + b2s(p[3] == gL)
 			}
+			x += p[4]
 		}
 	} else {
 		slChild = nil
@@ -366,6 +375,7 @@ func saveloadChild(_ []string) int {
 	if err := extensions.Init(&extensions.Config{HasLoad: true, HasSave: true}); err != nil {
 		return 3
 	}
+	debug.SetMemoryLimit(256 << 20)
 	in := bufio.NewReaderSize(os.Stdin, 1<<20)
 	w := bufio.NewWriter(os.Stdout)
 	for {
@@ -402,7 +412,61 @@ func saveloadChildCase(input string) (res string) {
 	s4, _ := slNewState(0)
 	_ = repl.AutoLoad(s4, repl.Options{AutoLoad: true})
 	g4 := slGlobals(s4)
-	return f1 + ";" + g2 + ";" + f2 + ";" + g4
+	// the session goes on and gets smaller, then is saved again over the same files
+	shrink := slShrink(s)
+	for _, st := range shrink {
+		slEval(s, out, st)
+		slEval(s3, out, st)
+	}
+	want, _ := slSave(s)
+	slEval(s, out, `save("c14")`)
+	f5 := readOpt("c14.gr")
+	s6, out6 := slNewState(0)
+	slEval(s6, out6, `load("c14")`)
+	sW, _, _ := slLoadWhole(want)
+	want3, _ := slSave(s3)
+	_ = repl.AutoSave(s3, repl.Options{AutoSave: true})
+	f7 := readOpt(".gr")
+	s8, _ := slNewState(0)
+	_ = repl.AutoLoad(s8, repl.Options{AutoLoad: true})
+	sL, _, _ := slLoadLines(want3)
+	second := b2s(f5 == hx(want)) + b2s(slGlobals(s6) == slGlobals(sW))
+	if len(shrink) == 0 && f2 == "none" {
+		// nothing was ever set: AutoSave never writes
+		second += b2s(f7 == "none") + "1"
+	} else {
+		second += b2s(f7 == hx(want3)) + b2s(slGlobals(s8) == slGlobals(sL))
+	}
+	tmps, _ := filepath.Glob(".grol*.tmp")
+	if len(tmps) > 0 { // a successful AutoSave leaves no temporary file behind
+		second = "tttt"
+		for _, t := range tmps {
+			_ = os.Remove(t)
+		}
+	}
+	return f1 + ";" + g2 + ";" + f2 + ";" + g4 + ";" + second
+}
+
+// slShrink: statements that make the saved form of the session shorter: every other user global is
+// deleted, the others are set to 1 (constants refuse both; pre-seeded names are left alone)
+func slShrink(s *eval.State) []string {
+	store := s.VerifRootEnv().VerifStore()
+	keys := make([]string, 0, len(store))
+	for k := range store {
+		if !object.VerifIsExtraIdentifier(k) {
+			keys = append(keys, k)
+		}
+	}
+	sort.Strings(keys)
+	var res []string
+	for i, k := range keys {
+		if i%2 == 0 {
+			res = append(res, "del("+k+")")
+		} else {
+			res = append(res, k+"=1")
+		}
+	}
+	return res
 }
 
 // ---- generators ----
@@ -462,7 +526,55 @@ func slRandBytes(r *rng, n int) []byte {
 	return b
 }
 
+// grol source of a double-quoted string literal holding these bytes RAW (only what the lexer needs is escaped)
+func slRawLit(b []byte) string {
+	var sb strings.Builder
+	sb.WriteByte('"')
+	for _, c := range b {
+		switch {
+		case c == '"' || c == '\\':
+			sb.WriteByte('\\')
+			sb.WriteByte(c)
+		case c == 0 || c == '\n':
+			fmt.Fprintf(&sb, `\x%02x`, c)
+		default:
+			sb.WriteByte(c)
+		}
+	}
+	sb.WriteByte('"')
+	return sb.String()
+}
+
+// expressions whose value is a string that is not valid UTF-8 and comes from no escape: slices in the
+// middle of a character, halves glued with +, raw bytes in the source text
+func slBrokenStr(r *rng) string {
+	ru := slRunes[r.intn(len(slRunes))]
+	lit := `"` + string(rune('a'+r.intn(26))) + ru + `"`
+	n := 1 + len(ru)
+	switch r.intn(5) {
+	case 0: // cut inside the last character
+		return fmt.Sprintf("%s[0:%d]", lit, 1+1+r.intn(len(ru)-1))
+	case 1: // start inside the character
+		return fmt.Sprintf("%s[%d:%d]", lit, 2, n)
+	case 2: // halves of two characters glued together
+		return fmt.Sprintf("%s[0:2]+%s[%d:%d]", lit, lit, n-1, n)
+	case 3:
+		return slRawLit(slRandBytes(r, 1+r.intn(8)))
+	default:
+		b := slRandBytes(r, 1+r.intn(6))
+		for i := range b {
+			if b[i] == '`' || b[i] == 0 || b[i] == '\r' {
+				b[i] = byte(128 + r.intn(128))
+			}
+		}
+		return "`" + string(b) + "`"
+	}
+}
+
 func slRandStr(r *rng) string {
+	if r.intn(4) == 0 {
+		return slBrokenStr(r)
+	}
 	if r.intn(5) == 0 {
 		var sb strings.Builder
 		sb.WriteByte('"')
@@ -533,19 +645,28 @@ func slArgs(r *rng, params []gtype) string {
 	return strings.Join(args, ", ")
 }
 
+var slUnbounded = regexp.MustCompile(`p\d+_0(\+\+| = | := )`)
+
 // a program from the evaluator grammar (variables, named functions, lambdas) plus calls of its functions
 func slProgram(r *rng) (defs, calls []string) {
 	g := &pgen{r: r, loopVar: map[string]bool{}, bigOK: true}
+	var fdefs []string
 	n := 3 + r.intn(7)
 	for i := 0; i < n; i++ {
 		if g.chance(40) && len(g.funcs) < 5 {
 			defs = append(defs, g.funcDef())
+			fdefs = append(fdefs, defs[len(defs)-1])
 		} else {
 			g.depth = 0
 			defs = append(defs, g.stmt())
 		}
 	}
-	for _, f := range g.funcs {
+	for i, f := range g.funcs {
+		// a recursive function that also increments / reassigns the parameter it recurses on need not terminate
+		if i < len(fdefs) && slUnbounded.MatchString(fdefs[i]) &&
+			(strings.Contains(fdefs[i], "self(") || strings.Count(fdefs[i], f.name+"(") > 1) {
+			continue
+		}
 		for k := 0; k < 3; k++ {
 			calls = append(calls, f.name+"("+slArgs(r, f.params)+")")
 		}
@@ -578,6 +699,24 @@ func saveloadGen(tier string, r *rng, emit func(string)) {
 	for _, ru := range slRunes {
 		one(`x="` + ru + `"`)
 	}
+	// invalid UTF-8 that comes from no escape: raw bytes in the source text, slices, concatenations
+	for b := 128; b < 256; b++ {
+		one("x=" + slRawLit([]byte{'h', byte(b)}))
+	}
+	one("x=" + slRawLit(all[1:]))
+	one("x=[" + slRawLit(all[128:]) + "]")
+	one("x={" + slRawLit(all[128:]) + ":" + slRawLit(all[128:192]) + "}")
+	one("x=`h\xc3\xff\x80`")
+	for _, ru := range slRunes {
+		lit := `"h` + ru + `"`
+		for k := 2; k < 1+len(ru); k++ {
+			one(fmt.Sprintf("x=%s[0:%d]", lit, k))
+			one(fmt.Sprintf("x=[%s[0:%d],%s[%d:%d]]", lit, k, lit, k, 1+len(ru)))
+			one(fmt.Sprintf("x={%s[0:%d]:%s[%d:%d]}", lit, k, lit, k, 1+len(ru)))
+			one(fmt.Sprintf("x=%s[0:%d]+%s[%d:%d]", lit, k, lit, 1+len(ru)-1, 1+len(ru)))
+		}
+	}
+	emit(slCase(0, []string{"f=func(s){s+" + slRawLit([]byte{0xc3, 0xff}) + "}"}, []string{`f("a")`}))
 	one(`x="x\x07y\x08\x0c\x0b"`)
 	one("x=\"a\nb\"")
 	one("x=`a\nb\\n\"c`")
